@@ -30,9 +30,18 @@ def run(ctx):
     if ctx.only is None and n_units_err == 0:
         raise vlib.Infra("vacuous: no block exceeded a per-dimension maximum")
     fails = ch.validate(ctx, files, "c12")
+    # overflow rows: real Transaction.Units with rule costs that are multiples of 2^60
+    ofiles = ch.record(ctx, "^TestVerifUnitsOverflow$", "c12o", 1, prefix="ov", extra_env={"VERIF_ROWS": ctx.pick(300, 5000)},
+                       files=["verif_harness_test.go", "verif_exec_test.go", "verif_rules_test.go"])
+    rows = [l for l in vlib.read_ndjson(ofiles[0]) if l.get("ev") == "unitsrow"]
+    ctx.add("overflow_rows", len(rows))
+    ctx.add("overflow_rows_rejected", sum(1 for l in rows if l["err"]))
+    if not any(l["err"] for l in rows) or all(l["err"] for l in rows):
+        raise vlib.Infra("vacuous overflow rows")
+    fails += ch.validate(ctx, ofiles, "c12-overflow")
     vlib.report_failures(ctx, fails, ch.describe)
     ctx.cov["rule"] = ("seeded chains of blocks with random rule unit costs (0..25), key chunk suffixes 1..3 (and off-by-one "
                        "suffix variants of the same key name), 0-6 transactions, per-block maxima drawn so that roughly a third "
                        "of the blocks overflow some dimension; distinct_nontrivial = distinct block shapes")
-    ctx.assumptions += ["64-bit overflow of the unit arithmetic (rule costs near 2^64) is outside TLC's integers and not covered "
-                        "by this check", "the bandwidth unit is the transaction's encoded size as reported by Transaction.Size()"]
+    ctx.assumptions += ["overflow of the unit arithmetic is checked on rule costs that are multiples of 2^60 with zero per-key "
+                        "costs (exact in TLC's integers); compute-unit overflow is not covered", "the bandwidth unit is the transaction's encoded size as reported by Transaction.Size()"]
